@@ -18,6 +18,10 @@ pub open spec fn tokens_tile(ts: Seq<Token>, n: int) -> bool {
     &&& forall|i: int| 0 <= i < ts.len() ==> (#[trigger] ts[i]).range.start <= ts[i].range.end <= n
     &&& forall|i: int, j: int| 0 <= i < j < ts.len() ==> (#[trigger] ts[i]).range.end <= (#[trigger] ts[j]).range.start
 }
+/// token ranges lie on character boundaries (C06, assumed: the lexer is out of reach)
+pub open spec fn tokens_on_boundaries(ts: Seq<Token>, s: Seq<char>) -> bool {
+    forall|i: int| 0 <= i < ts.len() ==> is_boundary(s, (#[trigger] ts[i]).range.start as int) && is_boundary(s, ts[i].range.end as int)
+}
 /// index of the first non-comment token in ts, or ts.len()  ("after any doc comments")
 pub open spec fn first_code(ts: Seq<Token>) -> int
     decreases ts.len()
@@ -82,7 +86,7 @@ pub trait ToRange {
 //@ sig
     requires
         p.info.range.start <= p.info.range.end, p.info.range.end + offset <= doc.tokens@.len(), p.info.range.end + offset <= usize::MAX,
-        tokens_tile(doc.tokens@, doc.text@.len() as int), pos_monotone(doc.text@),
+        tokens_tile(doc.tokens@, byte_off(doc.text@, doc.text@.len() as int)), tokens_on_boundaries(doc.tokens@, doc.text@), text_fits(doc.text@),
     ensures
         fr.start_line <= fr.end_line, //# fold::start_not_after_end
         ({  let lo = p.info.range.start + offset; let hi = p.info.range.end + offset;
@@ -90,6 +94,14 @@ pub trait ToRange {
             k < hi ==> fr.start_line == pos_of(doc.tokens@[k].range.start, doc.text@).line
                     && fr.end_line == pos_of(doc.tokens@[hi - 1].range.end, doc.text@).line }), //# fold::first_code_token_to_last_token
         fr.kind == Some(FoldingRangeKind::Region),
+//@ before "let range = as_pos_range(&text_range, &doc.text);"
+proof {
+                    assert(is_char_at(doc.text@, 0, 0));
+                    if text_range.start <= text_range.end && is_boundary(doc.text@, text_range.start as int) && is_boundary(doc.text@, text_range.end as int) {
+                        lemma_pos_of_monotone(doc.text@, text_range.start, text_range.end);
+                    }
+                }
+                
 //@end
 
 pub proof fn witness_fold() {
